@@ -319,3 +319,87 @@ def real_gate_templated(a: str, b: str, c: str) -> bool:
 
 
 _L = pick(1, 2)
+
+
+# One component free (up to 3 chars), the other two as the server declares them: the shape a
+# "fast path" or prefix shortcut in the gate would get wrong (added after a seeded change that
+# admitted '1.2.03' through a startswith()/isdigit() shortcut went unnoticed by the 1-char template).
+_L1 = pick(3, 4)
+
+
+def _replay_one_component(args: dict) -> str | None:
+    parts = ["1", "2", "0"]
+    parts[args["which"]] = args["x"]
+    return _replay_real_gate({"a": parts[0], "b": parts[1], "c": parts[2]})
+
+
+@cond(q=90, t=600, encoded=[srv.RpcServer._check_protocol_version, md.parse_version], bound="client = server's 1.2.0 with ONE component replaced by any ASCII string (patch len<=%d, major/minor len<=%d)" % (_L1, _L1 - 1),
+      replay=_replay_one_component, signature=lambda args, conc: "C09:gate:decision-differs")
+def real_gate_one_free_component(which: int, x: str) -> bool:
+    """
+    pre: 0 <= which <= 2 and len(x) <= (_L1 if which == 2 else _L1 - 1) and x.isascii()
+    post: _
+    """
+    parts = ["1", "2", "0"]
+    if which == 0:
+        parts[0] = x
+    elif which == 1:
+        parts[1] = x
+    else:
+        parts[2] = x
+    client = parts[0] + "." + parts[1] + "." + parts[2]
+    fake = _Srv((1, 2, 0), "1.2.0")
+    try:
+        srv.RpcServer._check_protocol_version(fake, client.encode())  # type: ignore[arg-type]
+        passed = True
+    except ProtocolVersionError:
+        passed = False
+    except Exception:  # noqa: BLE001
+        return False
+    digits = "0123456789"
+    canonical = len(x) >= 1 and all(ch in digits for ch in x) and (x == "0" or x[0] != "0")
+    if which == 0:
+        want = x == "1"
+    elif which == 1:
+        want = x == "2"
+    else:
+        want = canonical
+    return passed == want
+
+
+_ALPHA = "0139a .-"
+
+
+def _ch(i: int) -> str:
+    # branch a symbolic index to a concrete character (the gate then runs on concrete bytes: shortcuts
+    # written with bytes methods / %-formatting are outside what CrossHair executes symbolically)
+    for k in range(len(_ALPHA)):
+        if i == k:
+            return _ALPHA[k]
+    return _ALPHA[0]
+
+
+@cond(q=90, t=300, encoded=[srv.RpcServer._check_protocol_version, md.parse_version], bound="client = '1.2.' + patch, patch any string of length 0..3 over the alphabet '0139a .-' (solver case split; the gate runs concretely)",
+      replay=lambda a: _replay_real_gate({"a": "1", "b": "2", "c": "".join(_ALPHA[a[k]] for k in ("i0", "i1", "i2"))[: a["n"]]}), signature=lambda args, conc: "C09:gate:decision-differs")
+def real_gate_patch_grid(n: int, i0: int, i1: int, i2: int) -> bool:
+    """
+    pre: 0 <= n <= 3 and 0 <= i0 <= 7 and 0 <= i1 <= 7 and 0 <= i2 <= 7
+    post: _
+    """
+    patch = (_ch(i0) + _ch(i1) + _ch(i2))
+    if n == 0:
+        patch = ""
+    elif n == 1:
+        patch = patch[:1]
+    elif n == 2:
+        patch = patch[:2]
+    fake = _Srv((1, 2, 0), "1.2.0")
+    try:
+        srv.RpcServer._check_protocol_version(fake, ("1.2." + patch).encode())  # type: ignore[arg-type]
+        passed = True
+    except ProtocolVersionError:
+        passed = False
+    except Exception:  # noqa: BLE001
+        return False
+    canonical = len(patch) >= 1 and all(ch in "0123456789" for ch in patch) and (len(patch) == 1 or patch[0] != "0")
+    return passed == canonical
